@@ -6,7 +6,7 @@ cd "$(dirname "$0")"
 export GOFLAGS=-mod=mod GOPROXY=off GODEBUG=goindex=0
 unset GOTOOLCHAIN GOSUMDB
 mkdir -p .build evidence replays
-if [ -d tools/vinstr ]; then (cd tools/vinstr && go build -o ../../.build/vinstr .) || exit 1; fi
+for t in vinstr vticks; do if [ -d tools/$t ]; then (cd tools/$t && go build -o ../../.build/$t .) || exit 1; fi; done
 # warm caches: compile (not run) each harness package through the driver
 python3 - <<'PY'
 import importlib.machinery, importlib.util, os, sys
